@@ -114,6 +114,13 @@ def deep_inputs(depth, rng=None):
 def gen_inputs(rng, repo, n, big):
     base = corpus_files(repo)
     out = [b"", b")", b"\"\\UFFFFFFFF\"", b"\x00", b"\xff\xfe", b"#!x", b"1;;;;2", b"\"\\uZ\"", b"'", b"\"", b"/*", b"`", b"1 +", b"def", b"fun", b"class", b"${", b"\"${\"${\"${1}\"}\"}\""]
+    # clauses that may appear once, repeated; clauses in the wrong order; clauses without their head
+    out += [b"if(a){}else{}else{}", b"if(a){}else if(b){}else{}else{}", b"if(a){}else{}else if(b){}", b"if(a;b;c){}", b"if(var x=1;x){}else{}else{}",
+            b"try{}catch(e){}finally{}finally{}", b"try{}finally{}catch(e){}", b"try{}catch{}catch{}", b"try{}", b"catch(e){}", b"finally{}", b"else{}",
+            b"switch(x){default{}default{}}", b"switch(x){case(1){}case(1){}default{}case(2){}}", b"switch(x){}", b"case(1){}", b"default{}",
+            b"def f():g:h{}", b"def f(a,a){}", b"def f(){}{}", b"class C{}{}", b"class C{class D{}}", b"class C{def C(){}def C(){}}", b"attr C::a::b",
+            b"for(;;;){}", b"for(a:b:c){}", b"for(){}", b"while(){}", b"while(a)(b){}", b"fun(){}{}", b"fun[a][b](){}", b"fun(a)(b){}", b"[1:2:3]", b"[1..2..3]",
+            b"return return", b"break break", b"var var x", b"var x = = 1", b"auto &&x", b"global global g", b"x ? y : z : w", b"x ? : y"]
     out += base
     out += deep_inputs(400000 if big else 150000, rng)
     out += afl_corpus(repo, 3000 if big else 300)
